@@ -54,7 +54,7 @@ def plan(tier, seed):
     nmax = 5 if tier == "quick" else 7
     nmaps = len(MAPS)
     lays = (0, 1, 2, 3, 4, 5, 6)
-    shards = [("grid", mi, n, lay) for mi in range(nmaps) for n in range(1, nmax + 1) for lay in lays] + [("absent",), ("many",), ("siblings",)] + [("meta", k) for k in range(len(SONGS))] + [("far",)]
+    shards = [("grid", mi, n, lay) for mi in range(nmaps) for n in range(1, nmax + 1) for lay in lays] + [("absent",), ("many",), ("siblings",)] + [("optimised", ("-O",)), ("optimised", ("-OO",))] + [("meta", k) for k in range(len(SONGS))] + [("far",)]
     return dict(shards=shards, bounds=dict(max_notes=nmax, tick_alphabet=list(TICKS), maps=[list(map(list, m)) for m in MAPS[:nmaps]], sustain_layouts=len(lays)), budget_s=600)
 
 
@@ -106,6 +106,12 @@ def oracle(nt, s, e):
 
 
 def run_shard(shard, ctx):
+    if shard[0] == "optimised":
+        from .. import core
+        import sys
+
+        core.run_in_other_interpreter(ctx, sys.modules[__name__], [("absent",), ("siblings",), ("grid", 1, 2, 1), ("grid", 2, 3, 5)], shard[1], "absent / note-less tracks, sibling tracks, two grid cells")
+        return
     if shard[0] == "absent":
         text = mk(res=100, tracks={"ExpertSingle": ["0 = N 0 0", "10 = N 1 0"], "HardSingle": ["3 = S 2 4", "5 = E solo"]})
         c = impl.parse(text)
